@@ -132,6 +132,7 @@ fn main() {
                 count: get("count", "0").parse().unwrap_or(0),
                 sample: get("sample", "1").parse().unwrap_or(1),
                 max_n: get("max-n", "0").parse().unwrap_or(0),
+                focus: get("focus", ""),
                 hooks,
             };
             families::generate(&p, &mut out);
